@@ -27,7 +27,7 @@ func main() {
 			NMembers: nm, Threshold: uint64(r.Range(1, nm)), MaxDESize: uint64(sim.Pick(r, []int{1, 2, 3, 5})),
 			SigningPeriod: uint64(r.Range(1, 4)), MaxAttempts: uint64(r.Range(1, 4)), FeePerSigner: sdk.NewCoins(sdk.NewInt64Coin("uband", 10)),
 			Blocks: 110, PSubmit: sim.Pick(r, []int{40, 70, 95}), LazyMembers: r.Intn(2), DEOps: true,
-			FailpointPct: sim.Pick(r, []int{0, 15, 30}), FailpointMode: r.Intn(2), ReqPerBlockPct: 60, ParamChanges: i%5 == 4,
+			FailpointPct: sim.Pick(r, []int{0, 15, 30}), FailpointMode: r.Intn(2), ReqPerBlockPct: 60, ParamChanges: i%3 == 2,
 		}
 	}, func(h *tssworld.Hist) []tssworld.Monitor {
 		return []tssworld.Monitor{tssworld.NewDEMonitor()}
@@ -54,7 +54,7 @@ func main() {
 		om := tssworld.NewOracleSource(h, nil)
 		return []tssworld.Monitor{om, tssworld.NewDEMonitor()}
 	}, nil)
-	for _, c := range []string{"de-assigned", "de-over-limit-rejected", "de-queue-exactly-full", "de-reset", "failpoint-fired", "failpoint-panicked",
+	for _, c := range []string{"de-assigned", "de-over-limit-rejected", "de-queue-exactly-full", "de-reset", "failpoint-fired", "failpoint-panicked", "de-submit-while-queue-above-lowered-limit",
 		"oracle-tss-result-signings-paid", "oracle-tss-result-signing-failed-other"} {
 		run.Require(c, 1)
 	}
